@@ -7,7 +7,16 @@ Python statements of pandera code.  Oracle per executed schedule:
   O1  every thread's outcome == its solo outcome (frames bit-for-bit via
       pvm.snap, exceptions by type + reason codes + failure cases);
   O2  config context / global CONFIG after join == before;
-  O3  every schema's fingerprint after join == before.
+  O2' process-wide state outside pandera after join == before (every pandas
+      option, numpy error state, warnings filters, polars Config);
+  O3  every schema's fingerprint after join == before;
+  O4  every call run once more, alone, after the join == its solo outcome;
+  O5  the schema cached for a model class on first use == the schema an
+      identical class compiles when it is used by one thread only.
+
+The cold family (pvm/c07_cold.py) runs every schedule in a fork of a pristine
+template interpreter, so that "first use" of the lazily filled registries is
+real; its template processes run beside the in-process schedules of a shard.
 
 The mechanism classifier reads only the witness: which shared fields the
 scheduler's probe saw changed under a parked thread (``foreign``), which
@@ -28,7 +37,10 @@ from ..evidence import Run, canon_hash
 
 PID = "C07"
 SHARDS = {"quick": 8, "thorough": 16}
-SHARD_TIMEOUT = {"quick": 900, "thorough": 3300}
+import os as _os
+# PVM_C07_SHARD_TIMEOUT: longer watchdog for runs on a heavily loaded machine
+SHARD_TIMEOUT = {"quick": 900,
+                 "thorough": int(_os.environ.get("PVM_C07_SHARD_TIMEOUT", 3300))}
 
 K_D16 = "config-context-module-global-shared-across-threads"
 K_D17 = "pandas-shared-column-coerce-dtype-override-unsynchronised"
@@ -39,10 +51,39 @@ K_MODEL = "model-to-schema-first-use-class-dict-mutated-while-iterated"
 # sizes: (variants, single-preemption points per direction (None = all),
 #         double-preemption grid side, random schedules per (variant, n, p))
 SIZES = {
-    "quick": dict(variants=2, single=70, double=6, random=18),
-    "thorough": dict(variants=3, single=None, double=16, random=120),
+    "quick": dict(variants=2, single=70, double=6, random=16),
+    # single: every yield point of the first thread up to 2500 per direction
+    # (only the model compilation of model_first_use is longer: strided)
+    "thorough": dict(variants=3, single=2500, double=14, random=96),
 }
 PROBS = (0.005, 0.02, 0.10)
+# scenarios whose calls fill process-wide caches / touch process-wide state:
+# the post-join re-run (O4) is made after every schedule (else every 2nd)
+O4_EVERY = {"model_first_use", "registry_first_use", "pd_defaults_object",
+            "mixed_builtin_dispatch"}
+O4_STRIDE = {"quick": 2, "thorough": 4}
+
+
+def tier_of(run):
+    return getattr(run, "c07_tier", "quick")
+
+# cold family (pvm/c07_cold.py): (family, variant) templates, one fresh
+# interpreter each; single = preemption points per direction (None = every
+# first-use location + every 4th yield point), random = schedules per (n, p)
+COLD_UNITS = {
+    "quick": [("cold_pd_two_models", 0), ("cold_pd_construct", 0),
+              ("cold_pl_first", 0), ("cold_mixed", 0), ("cold_same_model", 0),
+              ("cold_check_types", 0), ("cold_pd_two_models", 1),
+              ("cold_pd_construct", 1)],
+    "thorough": [(f, v) for v in (0, 1) for f in (
+        "cold_pd_two_models", "cold_pd_construct", "cold_pl_first",
+        "cold_mixed", "cold_same_model", "cold_check_types")]
+    + [("cold_pd_construct", 2), ("cold_pd_construct", 3),
+       ("cold_pd_construct", 4), ("cold_pd_two_models", 2)],
+}
+COLD_SIZES = {"quick": dict(single=56, random=2),
+              "thorough": dict(single=240, random=8)}
+COLD_TIMEOUT = {"quick": 600, "thorough": SHARD_TIMEOUT["thorough"] - 300}
 
 
 def new_run():
@@ -53,17 +94,36 @@ def new_run():
         "systematic single preemption (thread X stopped at its i-th pandera "
         "line, the others run to completion, X resumes; both directions), "
         "a grid of double preemptions, seeded random switching with p in "
-        "{0.5%,2%,10%} for 2 and 3 threads. distinct = hash of (scenario, "
-        "variant, threads, executed token hand-over list); non-trivial = at "
-        "least one preemption was actually executed and every thread reached "
-        "pandera code (>=1 yield point each)",
+        "{0.5%,2%,10%} for 2 and 3 threads. 15 warm scenario families run in "
+        "one process (schemas rebuilt per schedule); 6 cold families run every "
+        "schedule in a fork of a pristine template interpreter (pandas/polars/"
+        "pandera imported, nothing constructed or validated): each thread "
+        "builds its schema inside its call (never-used DataFrameModel, schema "
+        "construction + validate, check_types), single preemption at the first "
+        "occurrence of every first-use-only location (code the same call does "
+        "not reach a second time) + strided + random. Judged per schedule: "
+        "outcome of each thread == the call alone; pandera config, process-"
+        "wide state (all pandas options, numpy error state, warnings filters, "
+        "polars Config) and schema fingerprints after join == before; each "
+        "call once more after the join == alone; schema cached for a model "
+        "class == the one an identical class compiles alone; (cold) backend "
+        "registries after join == after sequential use. distinct = hash of "
+        "(scenario, variant, threads, executed token hand-over list); "
+        "non-trivial = at least one preemption was actually executed and "
+        "every thread reached pandera code (>=1 yield point each)",
         ["preemption only between two Python statements of pandera code (a "
          "subset of real GIL switch points): no impossible interleaving",
          "races whose window lies inside one pandas/polars/numpy call are not "
          "explored",
          "solo outcome of each call is computed unscheduled on a fresh build "
-         "of the same scenario and must be reproducible (checked twice)",
-         "2-3 threads, frames <= 5 rows, 14 scenario families"])
+         "of the same scenario (cold: in a fork of its own) and must be "
+         "reproducible (checked twice)",
+         "cold family: modules the first validation imports lazily are "
+         "imported in the template beforehand (a parked thread holding an "
+         "import lock would dead-lock the token scheduler): races inside lazy "
+         "imports are not explored; a fork of the import-only template stands "
+         "for a fresh interpreter",
+         "2-3 threads, frames <= 5 rows, 15 warm + 6 cold scenario families"])
 
 
 # ------------------------------------------------------------------ helpers
@@ -119,6 +179,10 @@ def fps(built):
     return {lab: F.fp(s) for lab, s in built.schemas.items()}
 
 
+def post_fps(built):
+    return {lab: F.fp(s, ident=False) for lab, s in built.post().items()}
+
+
 def fp_diffs(before, after):
     out = []
     for lab in before:
@@ -150,6 +214,8 @@ def foreign_kinds(foreign):
     for _step, field, _a, _b in foreign:
         if field.startswith("cfg."):
             kinds.add("cfg")
+        elif field.startswith("proc."):
+            kinds.add("proc")
         elif field.endswith(".coerce"):
             kinds.add("coerce")
         elif field.endswith(".dtype"):
@@ -174,6 +240,12 @@ def classify(kind, w):
             return K_MODEL
         if not fk:
             return None
+        if fk == {"proc"}:
+            # the thread saw process-wide state outside pandera (a pandas
+            # option, numpy error state, warnings filters) changed by another
+            # thread's validation while it was parked
+            return ("process-wide-state-toggled-during-validate:"
+                    + ",".join(w["foreign_proc_fields"]))
         if fk == {"cfg"} and flags.get("config"):
             return K_D16
         if fk <= {"coerce", "dtype"} and flags.get("pandas_shared"):
@@ -194,6 +266,9 @@ def classify(kind, w):
         if pk == {"name"}:
             return K_NAME
         return None
+    if kind == "process-state-changed-after-join":
+        return ("process-wide-state-left-changed-after-concurrent-validate:"
+                + ",".join(w["changed_fields"]))
     if kind == "schema-changed-even-when-run-alone":
         pk = set(w["path_kinds"])
         if pk == {"name"} and w["scenario"] == "pd_shared_regex" \
@@ -225,12 +300,22 @@ class Baseline:
         # every thread alone on its own fresh build: does a single call
         # already leave a trace (sequential defect, not an interleaving one)?
         self.seq_diffs = set()
+        # schemas that exist only after first use (a model's cached schema):
+        # reference = the one an identical class compiles when used alone
+        self.post_fp = None
         for i in range(n):
             b = SC.build(name, variant, n, seed)
             try:
                 before = fps(b)
                 b.thunks[i]()
                 self.seq_diffs |= {p for p, _, _ in fp_diffs(before, fps(b))}
+                if b.post is not None:
+                    pf = post_fps(b)
+                    if self.post_fp is None:
+                        self.post_fp = pf
+                    elif pf != self.post_fp:
+                        self.ok = False
+                        self.why = "solo-compiled model schema not reproducible"
             finally:
                 if b.cleanup:
                     b.cleanup()
@@ -245,19 +330,31 @@ def judge(run, sched, name, variant, n, seed, policy, base, tag):
     try:
         before_fp = fps(b)
         before_cfg = cfg_state()
+        before_proc = SC.proc_state()
         r = sched.run(b.thunks, policy, probe=b.probe, timeout=60.0)
         after_cfg = cfg_state()
+        after_proc = SC.proc_state()
         after_fp = fps(b)
+        return _judge(run, b, r, name, variant, n, seed, policy, base, tag,
+                      before_fp, after_fp, before_cfg, after_cfg,
+                      before_proc, after_proc)
     finally:
         if b.cleanup:
             b.cleanup()
+
+
+def _judge(run, b, r, name, variant, n, seed, policy, base, tag, before_fp,
+           after_fp, before_cfg, after_cfg, before_proc, after_proc):
     run.count("schedules")
+    if getattr(b, "note", None):
+        run.count(b.note)
     run.count(f"schedules:{name}")
     run.count(f"policy:{tag}")
     run.count(f"threads:{n}")
     if r.status != "ok":
         run.count("schedule_inconclusive(watchdog)")
         cfg_restore()
+        SC.proc_restore(before_proc)
         return r
     run.count("yield_points", r.steps)
     run.count("preemptions", r.switches)
@@ -284,6 +381,9 @@ def judge(run, sched, name, variant, n, seed, policy, base, tag):
         if got != base.solo[i]:
             fk = sorted(foreign_kinds(r.foreign[i]))
             w = desc | {"thread": i, "call": b.labels[i],
+                        "foreign_proc_fields": sorted(
+                            {f[1][5:] for f in r.foreign[i]
+                             if f[1].startswith("proc.")}),
                         "solo": SC.brief(base.solo[i]), "got": SC.brief(got),
                         "got_exc_site": (H.exc_sig(r.outcomes[i].exc)
                                          if r.outcomes[i].kind == "exc" else None),
@@ -297,12 +397,28 @@ def judge(run, sched, name, variant, n, seed, policy, base, tag):
             run.count("oracle:outcome_equal_solo")
     # O2 configuration
     run.count("oracle:config_compared")
+    leaked = False
     if after_cfg != before_cfg:
         w = desc | {"before": before_cfg, "after": after_cfg,
                     "global_changed": after_cfg["global"] != before_cfg["global"]}
         run.violation("config-changed-after-join", w,
                       classify("config-changed-after-join", w))
         cfg_restore()
+        leaked = True
+    # O2' process-wide state outside pandera (pandas options, numpy error
+    # state, warnings filters, polars Config)
+    run.count("oracle:process_state_compared")
+    run.count("process_state_fields_compared", len(before_proc))
+    if after_proc != before_proc:
+        ch = sorted(k for k in set(before_proc) | set(after_proc)
+                    if before_proc.get(k) != after_proc.get(k))
+        w = desc | {"changed_fields": ch,
+                    "before": {k: before_proc.get(k) for k in ch},
+                    "after": {k: after_proc.get(k) for k in ch}}
+        run.violation("process-state-changed-after-join", w,
+                      classify("process-state-changed-after-join", w))
+        SC.proc_restore(before_proc)
+        leaked = True
     # O3 schemas
     run.count("oracle:schemas_compared", len(before_fp))
     d = fp_diffs(before_fp, after_fp)
@@ -319,6 +435,56 @@ def judge(run, sched, name, variant, n, seed, policy, base, tag):
                         "a_thread_failed_solo": any(s[0] != "ok" for s in base.solo)}
             run.violation("schema-changed-even-when-run-alone", w,
                           classify("schema-changed-even-when-run-alone", w))
+    # O5 schemas that only exist after first use: the schema cached for a
+    # model class == the one an identical class compiles when used alone
+    if b.post is not None and base.post_fp is not None:
+        try:
+            got_post = post_fps(b)
+        except Exception as e:  # noqa: BLE001 - to_schema itself raised
+            got_post = {"<post>": f"!{type(e).__name__}: {e}"[:200]}
+        run.count("oracle:cached_model_schema_compared", len(base.post_fp))
+        pd_ = []
+        for lab in base.post_fp:
+            if lab not in got_post:
+                pd_.append((lab, "present", "missing"))
+                continue
+            for p, x, y in all_diffs(base.post_fp[lab], got_post[lab]):
+                pd_.append((lab + p[1:], x, y))
+        if "<post>" in got_post:
+            pd_.append(("<post>", "schemas", got_post["<post>"]))
+        if pd_:
+            w = desc | {"diffs": pd_[:8], "solo_compiled_vs_cached": True}
+            run.violation("cached-model-schema-differs-from-solo-compiled", w,
+                          classify("cached-model-schema-differs", w))
+    # O4 every call once more, alone, after the join: what the calls left
+    # behind in the process (registries, caches, dispatchers, options) must
+    # not change what a later call returns
+    t_o4 = time.time()
+    k = int(run.counters.get("schedules", 0))
+    if leaked:
+        run.count("oracle:post_join_rerun_skipped(state leak already reported)")
+    elif name in O4_EVERY or k % O4_STRIDE[tier_of(run)] == 0:
+        # one call per schedule, rotating (a solo run under the installed
+        # monitor costs as much as a scheduled one)
+        i = (k // (1 if name in O4_EVERY else O4_STRIDE[tier_of(run)])) % n
+        try:
+            again = SC.sig(b.thunks[i]())
+        except BaseException as e:  # noqa: BLE001
+            again = ("exc-escaped", type(e).__name__, str(e)[:200])
+        run.count("oracle:post_join_rerun_compared")
+        run.count(f"oracle:post_join_rerun_compared:{name}")
+        if again != base.solo[i]:
+            w = desc | {"thread": i, "call": b.labels[i],
+                        "solo": SC.brief(base.solo[i]),
+                        "after_join": SC.brief(again),
+                        "proc_state_now_vs_before": sorted(
+                            k_ for k_, v in SC.proc_state().items()
+                            if before_proc.get(k_) != v)}
+            run.violation("outcome-after-join-differs-from-solo", w,
+                          classify("outcome-after-join", w))
+            cfg_restore()
+            SC.proc_restore(before_proc)
+    run.count("t_ms:post_join_rerun", int(1000 * (time.time() - t_o4)))
     return r
 
 
@@ -333,7 +499,8 @@ def strided(total, want, rng):
 
 def units(tier):
     z = SIZES[tier]
-    u = []
+    # the cold templates come first: one per shard (8 / 16 of them)
+    u = [("cold", f, v) for f, v in COLD_UNITS[tier]]
     for name in SC.ORDER:
         for v in range(z["variants"]):
             nchunk = 1 if tier == "quick" else 4
@@ -345,6 +512,67 @@ def units(tier):
                 for p in PROBS:
                     u.append(("random", name, v, n, p, 0))
     return u
+
+
+def start_cold_unit(ctx, unit, extra=None):
+    """Start one template process (fresh interpreter) of the cold family; it
+    runs beside this shard's in-process schedules and is collected at the end
+    (``collect_cold_unit``, with a watchdog)."""
+    import os
+    import subprocess
+    import tempfile
+    spec = dict(family=unit[1], variant=unit[2], **COLD_SIZES[ctx.tier])
+    if extra:
+        spec.update(extra)
+    fd, part = tempfile.mkstemp(prefix="pvm_c07cold_", suffix=".json")
+    os.close(fd)
+    with open(part + ".err", "w") as errf:
+        p = subprocess.Popen(
+            [env.PY, "-m", "pvm.c07_cold", str(ctx.seed), ctx.tier,
+             json.dumps(spec), part],
+            cwd=env.VERIF, stdout=subprocess.DEVNULL, stderr=errf)
+    return {"proc": p, "part": part, "unit": unit, "t0": time.time(),
+            "deadline": time.time() + COLD_TIMEOUT[ctx.tier]}
+
+
+def collect_cold_unit(run, h, ref=None):
+    import os
+    import subprocess
+    p, part, unit = h["proc"], h["part"], h["unit"]
+    try:
+        try:
+            p.wait(timeout=max(1.0, h["deadline"] - time.time()))
+        except subprocess.TimeoutExpired:
+            p.kill()
+            p.wait()
+            run.note_inconclusive(f"cold unit {unit}: watchdog timeout")
+            return
+        if p.returncode != 0:
+            try:
+                with open(part + ".err") as f:
+                    err = f.read()
+            except OSError:
+                err = ""
+            run.note_inconclusive(
+                f"cold unit {unit}: child exit {p.returncode}: {err[-300:]}")
+            return
+        with open(part) as f:
+            part_run = json.load(f)
+        for v in part_run["violations"]:
+            if ref and isinstance(v.get("witness"), dict):
+                v["witness"].setdefault("_replay", dict(ref))
+        run.merge(part_run)
+        run.count("cold:templates")
+    finally:
+        for q in (part, part + ".err"):
+            try:
+                os.unlink(q)
+            except OSError:
+                pass
+
+
+def run_cold_unit(run, ctx, unit, extra=None):
+    collect_cold_unit(run, start_cold_unit(ctx, unit, extra))
 
 
 def run_unit(run, ctx, sched, unit, bases):
@@ -386,8 +614,10 @@ def run_unit(run, ctx, sched, unit, bases):
             c, nchunk = unit[4], unit[5]
             pts = strided(na, z["single"], rng)
             pts = [i for k, i in enumerate(pts) if k % nchunk == c]
-            if z["single"] is None:
+            if z["single"] is None or na <= z["single"]:
                 run.count("single_preemption_complete_units")
+            else:
+                run.count("single_preemption_strided_units")
             for i in pts:
                 if not go(SinglePreempt(first, i, 2), "single"):
                     return False
@@ -411,15 +641,30 @@ def run(run, ctx):
     _CFG0["g"] = {k: getattr(cfg.CONFIG, k) for k in
                   ("validation_enabled", "validation_depth", "cache_dataframe",
                    "keep_cached_dataframe")}
-    SC.warm_up()
-    run.count("warmup_s", int(time.time() - t0))
-    prefix = env.REPO.rstrip("/") + "/pandera/"
+    run.c07_tier = ctx.tier
     us = units(ctx.tier)
+    mine = list(ctx.cases(len(us)))
+    # the cold templates (fresh interpreters) run beside the in-process work
+    cold = [(start_cold_unit(ctx, us[i]),
+             {"seed": ctx.seed, "tier": ctx.tier, "case": i})
+            for i in mine if us[i][0] == "cold"]
+    t1 = time.time()
+    SC.warm_up()
+    run.count("warmup_s", int(time.time() - t1))
+    prefix = env.REPO.rstrip("/") + "/pandera/"
     bases = {}
     with Scheduler(prefix) as sched:
-        for i in ctx.cases(len(us)):
+        for i in mine:
+            if us[i][0] == "cold":
+                continue
+            run.case_ref = {"seed": ctx.seed, "tier": ctx.tier, "case": i}
             if not run_unit(run, ctx, sched, us[i], bases):
                 break
+    run.case_ref = None
+    run.count("t_ms:in_process_part", int(1000 * (time.time() - t0)))
+    for h, ref in cold:
+        collect_cold_unit(run, h, ref)
+    run.count("t_ms:shard_total", int(1000 * (time.time() - t0)))
     run.floor("schedules", 20)
     run.floor("oracle:outcome_compared", 40)
 
@@ -438,9 +683,31 @@ def finalize(run, ctx):
     })
     for name in SC.ORDER:
         run.floors[f"schedules:{name}"] = 190 if q else 4000
+    run.floors.update({
+        "oracle:process_state_compared": 1700 if q else 45000,
+        "oracle:post_join_rerun_compared": 1500 if q else 21000,
+        "oracle:post_join_rerun_compared:model_first_use": 160 if q else 4000,
+        "oracle:post_join_rerun_compared:pd_defaults_object": 160 if q else 2600,
+        "oracle:cached_model_schema_compared": 160 if q else 4000,
+        # cold family (fresh interpreter state per schedule)
+        "cold:templates": 6 if q else 12,
+        "cold:schedules": 250 if q else 2100,
+        "cold:started_from_pristine_state": 250 if q else 2100,
+        "cold:policy:single": 220 if q else 1900,
+        "cold:single:at_first_use_location": 160 if q else 1000,
+        "cold:oracle:outcome_compared": 500 if q else 4200,
+        "cold:oracle:process_state_compared": 250 if q else 2100,
+        "cold:oracle:post_join_rerun_compared": 500 if q else 4200,
+        "cold:oracle:cached_model_schema_compared": 300 if q else 2300,
+        "cold:oracle:registry_compared": 250 if q else 2100,
+    })
+    from .. import c07_cold
+    for fam in c07_cold.ORDER:
+        run.floors[f"cold:schedules:{fam}"] = 30 if q else 250
     run.extra["distinct_interleavings"] = len(run.distinct)
     run.extra["yield_points_observed"] = int(run.counters.get("yield_points", 0))
     run.extra["scenarios"] = list(SC.ORDER)
+    run.extra["cold_scenarios"] = list(c07_cold.ORDER)
 
 
 # ------------------------------------------------------------------ replay
@@ -448,6 +715,27 @@ def replay(path):
     with open(path) as f:
         rec = json.load(f)
     w = rec["witness"]
+    if w.get("cold"):
+        # the recorded hand-over list, replayed in a fork of a fresh template
+        class _Ctx:
+            seed, tier = w["seed"], rec.get("tier", "quick")
+        try:
+            _Ctx.seed = int(_Ctx.seed)
+        except ValueError:
+            pass
+        r = new_run()
+        run_cold_unit(r, _Ctx, ("cold", w["scenario"], w["variant"]),
+                      extra={"mode": "replay", "n": w["threads"],
+                             "policy": ["replay", w["start"], w["trace"]]})
+        for x in r.violations:
+            print(f"REPLAYED {x['kind']} mechanism={x['mechanism']}")
+            print(json.dumps({k: x["witness"].get(k) for k in
+                              ("labels", "thread", "call", "solo", "got",
+                               "after_join", "diffs") if k in x["witness"]},
+                             indent=1, default=repr))
+        print(f"[{PID}] replay (cold): {len(r.violations)} violation(s) "
+              f"reproduced; {r.inconclusive or ''}")
+        return 1 if r.violations else 0
     import pandera.config as cfg
     _CFG0["g"] = {k: getattr(cfg.CONFIG, k) for k in
                   ("validation_enabled", "validation_depth", "cache_dataframe",
